@@ -122,13 +122,13 @@ def _handles3(sp, s0, q1, q2, q3, pack1, clean1, pack2, clean2, small=False, cre
             b.clean_storage()
         if not _query(h, w, q2, [(2, sp), (0, s0)]):
             return False
-        a.add_streamed_object(w.stream(1, 7))
+        a.add_streamed_object(w.stream(1, 17))
         if pack2:
             b.pack_all_loose(clean_loose_per_pack=clean2)
         if clean2:
             b.clean_storage()
-        h.add_streamed_object(w.stream(3, 9))
-        ok = _query(h, w, q3, [(2, sp), (0, s0), (1, 7), (3, 9)])
+        h.add_streamed_object(w.stream(3, 19))
+        ok = _query(h, w, q3, [(2, sp), (0, s0), (1, 17), (3, 19)])
         a.close()
         b.close()
         if creator:
